@@ -394,7 +394,7 @@ impl Transform {
 
         // propagate error
         let (x, y, z) = (vec.x, vec.y, vec.z);
-        let err_ret = mul4x4_abs(&self.elements, x, y, z) * gamma!(3);
+        let err_ret = mul3x3_abs(&self.elements, x, y, z) * gamma!(3);
 
         (ret, err_ret)
     }
@@ -406,7 +406,7 @@ impl Transform {
 
         // propagate error
         let (x, y, z) = (vec.x, vec.y, vec.z);
-        let err_ret = mul4x4_abs(&self.inv_elements, x, y, z) * gamma!(3);
+        let err_ret = mul3x3_abs(&self.inv_elements, x, y, z) * gamma!(3);
 
         (ret, err_ret)
     }
